@@ -192,7 +192,16 @@ def make_request(edit, rel, node, env, leaves, universe, opts, seed_expr, pick, 
         # the predicate *object* of a join built earlier in the program, applied as a selection where a column is missing
         from vf.core.expr import cols_p
 
-        joins = [n for n in walk(prog) if n[0] == "join" and n[3] is not None and id(n) in rels and cols_p(n[3])]
+        def has_literal(q):
+            k = q[0]
+            if k == "plit" or (k in ("and", "or") and not q[1]):
+                return True
+            if k in ("and", "or"):
+                return any(has_literal(x) for x in q[1])
+            return k == "not" and has_literal(q[1])
+
+        # only predicates that cannot fold to a constant: a trivially true selection is a documented no-op
+        joins = [n for n in walk(prog) if n[0] == "join" and n[3] is not None and id(n) in rels and cols_p(n[3]) and not has_literal(n[3])]
         cands = []
         for j in joins:
             need = cols_p(j[3])
